@@ -231,8 +231,8 @@ Definition loop_ledger : list (string * string * string * string * lterm) := [
   ("parser/svgtree/text.rs", "trim_text_nodes", "while i < len", "393d77f4ed3d", LCounter "`i += 1` at the end of every iteration, `len` fixed");
   ("tree/mod.rs", "subroots", "while let Some(c) = clip", "19bfd3bc43be", LOwned);
   ("tree/mod.rs", "subroots", "while let Some(m) = mask", "b04d5d856304", LOwned);
-  ("tree/mod.rs", "collect_clip_paths", "while let Some(c) = clip", "41f4d012cb8e", LOwned);
-  ("tree/mod.rs", "collect_masks", "while let Some(m) = mask", "2c66897956da", LOwned)
+  ("tree/mod.rs", "collect_clip_paths", "while let Some(c) = clip", "21d8a56310ed", LOwned);
+  ("tree/mod.rs", "collect_masks", "while let Some(m) = mask", "90403164f857", LOwned)
 ].
 
 Lemma loops_discharged : forallb (loop_discharged_by loop_ledger) parser_loops = true.
